@@ -953,6 +953,16 @@ func (in *Interp) callBuiltin(fr *frame, b *ssa.Builtin, args []Value, cc *ssa.C
 				x.entries = nil
 			}
 			return nil
+		case BSlice:
+			if x.obj != nil {
+				x.obj.arr = ArrCopy(x.obj.arr, x.off, arrZero, I64(0), x.len)
+			}
+			return nil
+		case GSlice:
+			for i := 0; i < x.len; i++ {
+				store(x.arr.elems[x.off+i], zero(x.arr.elemT))
+			}
+			return nil
 		}
 	case "ssa:wrapnilchk":
 		if isNilLoc(args[0]) {
